@@ -416,8 +416,8 @@ theorem dataclass_decode_eq_partial (splice : V → Option V) (isNone : V → Bo
   every run); `DChain.newStep`/`DChain.run` execute it.  The theorems below are about the guard the code has now and
   stop compiling when it changes (`hier_guard_matters` shows that they can fail). -/
 
-/-- the source calls `convert_to_payload(cls)` unconditionally in both `__new__` methods -/
-theorem new_guard_is_unconditional : Gen.newGuard = .always := by decide
+/-- in both `__new__` methods the source converts (at least) every class that has not been converted itself -/
+theorem new_guard_converts_unconverted : Gen.newGuard = .always ∨ Gen.newGuard = .oncePerClass := by decide
 
 /-- class-level data does not depend on the conversion state once the class itself has been instantiated: for every
     chain, every sequence of instantiations (parents first, children first, interleaved, repeated) that contains class
@@ -425,9 +425,9 @@ theorem new_guard_is_unconditional : Gen.newGuard = .always := by decide
     (parent fields ++ own fields). -/
 theorem hier_class_def_after_instance (c : DChain V) (evs : List Nat) (k : Nat) (h : k ∈ evs) :
     c.classData (c.run Gen.newGuard evs) k = c.classData [k] k := by
-  rw [new_guard_is_unconditional, DChain.run_always]
   unfold DChain.classData
-  rw [nearest_self _ k ((mem_runInst evs k).mpr h), nearest_self [k] k (by simp)]
+  rw [nearest_self _ k ((c.mem_run Gen.newGuard new_guard_converts_unconverted evs k).mpr h),
+    nearest_self [k] k (by simp)]
 
 /-- the statement is sensitive to the guard: with "convert only if `not cls.format_list`" (seeded change C20_m3) a child
     instantiated after its parent keeps the parent's class-level data -/
@@ -435,6 +435,7 @@ theorem hier_guard_matters :
     let c : DChain Nat := { levels := [[("ident", .int, none)], [("body", .bytes, some 7)]] }
     (c.classData (c.run .ifNoFormatList [0, 1]) 1).toOption = some ([.str "q"], ["ident"])
     ∧ (c.classData (c.run .always [0, 1]) 1).toOption = some ([.str "q", .str "varlenH"], ["ident", "body"])
+    ∧ (c.classData (c.run .oncePerClass [0, 1, 0]) 1).toOption = some ([.str "q", .str "varlenH"], ["ident", "body"])
     ∧ (c.classData (c.run .ifNoFormatList [1, 0]) 1).toOption = some ([.str "q", .str "varlenH"], ["ident", "body"]) := by
   decide
 
@@ -452,9 +453,7 @@ theorem hier_instance_eq (splice : V → Option V) (isNone : V → Bool) (c : DC
   refine ⟨?_, h2, h3⟩
   intro args kw hkw
   unfold DChain.hierInit
-  rw [new_guard_is_unconditional]
-  simp only [DChain.newStep]
-  rw [nearest_self (k :: conv) k (by simp)]
+  rw [nearest_self _ k (c.mem_newStep Gen.newGuard new_guard_converts_unconverted conv k)]
   exact h1 args kw hkw
 
 /-- decoding is where the state matters, and exactly so: a class that has been instantiated decodes like its plain
@@ -486,8 +485,8 @@ theorem hier_decode_state (splice : V → Option V) (isNone : V → Bool)
     · unfold DChain.hierDecode
       rw [hn]
     · unfold DChain.decodeStep
-      rw [hn, new_guard_is_unconditional]
-      simp [DChain.newStep]
+      rw [hn]
+      exact c.mem_newStep Gen.newGuard new_guard_converts_unconverted conv k
 
 /-- non-vacuity: header/body chain, parent instantiated first, then the child -/
 example :
